@@ -12,10 +12,11 @@ cp $WT/$DEMO $D/
 SCR=$(mktemp -d /tmp/seed.XXXXXX)
 git -C /repo archive HEAD | tar -x -C $SCR
 cd $SCR
+cp $D/$DEMO $SCR/
 set +e
-PYTHONPATH=$SCR /venv/bin/python $D/$DEMO > $D/demo_clean.out 2>&1; C=$?
+PYTHONPATH=$SCR /venv/bin/python $SCR/$DEMO > $D/demo_clean.out 2>&1; C=$?
 git init -q . 2>/dev/null; git apply $D/patch.diff || { echo "PATCH DOES NOT APPLY to HEAD"; }
-PYTHONPATH=$SCR /venv/bin/python $D/$DEMO > $D/demo_patched.out 2>&1; P=$?
+PYTHONPATH=$SCR /venv/bin/python $SCR/$DEMO > $D/demo_patched.out 2>&1; P=$?
 echo "demo exit: clean=$C patched=$P"
 cd /verif
 VERIF_EVIDENCE_DIR=$SCR/evidence DASSH_REPO=$SCR ./check $PROP --tier quick > $D/check.out 2>&1; K=$?
